@@ -4,6 +4,8 @@ go 1.13
 
 require (
 	github.com/Oneledger/protocol v0.0.0
+	github.com/ethereum/go-ethereum v1.10.8
+	github.com/tendermint/tendermint v0.33.3
 	github.com/tendermint/tm-db v0.5.1
 )
 
